@@ -251,6 +251,7 @@ func cdistReplay(in io.Reader, raw bool, args []string) (*Summary, error) {
 		}
 	})
 	sum.note("worst_abs_error", worst)
+	cdistGlobals(sum)
 	cdistConcurrent(sum)
 	return sum, err
 }
@@ -462,4 +463,55 @@ func cdistConcurrent(sum *Summary) {
 		}
 	}
 	concurrentSame(sum, "continuous distributions", names, calls)
+}
+
+// cdistGlobals: what the package's exported variables and the process-wide random source may and may not influence.
+// (1) StdNormal is a convenience VALUE: a program that assigns to it must not change what any other distribution computes.
+// (2) Rand(nil) "uses the default global source" (stats/dist.go): after re-seeding that source the same draws come again.
+func cdistGlobals(sum *Summary) {
+	c := json.RawMessage(`{"globals":1}`)
+	dists := []stats.NormalDist{{Mu: 0, Sigma: 1}, {Mu: -3, Sigma: 0.25}, {Mu: 1e6, Sigma: 40}}
+	eval := func() []float64 {
+		var out []float64
+		for _, d := range dists {
+			for _, p := range []float64{1e-300, 1e-9, 0.001, 0.3, 0.5, 0.8, 0.999, 1 - 1e-12} {
+				out = append(out, d.InvCDF(p))
+			}
+			for _, z := range []float64{-30, -6, -1, 0, 0.5, 3, 9} {
+				out = append(out, d.CDF(d.Mu+z*d.Sigma), d.PDF(d.Mu+z*d.Sigma))
+			}
+		}
+		for _, v := range []float64{1, 2.5, 30} {
+			out = append(out, stats.TDist{V: v}.CDF(1.3), stats.TDist{V: v}.PDF(-0.4), stats.InvCDF(stats.TDist{V: v})(0.9))
+		}
+		return out
+	}
+	before := eval()
+	func() {
+		saved := stats.StdNormal
+		defer func() { stats.StdNormal = saved }()
+		stats.StdNormal = stats.NormalDist{Mu: 100, Sigma: 15}
+		after := eval()
+		sum.Checks++
+		for i := range before {
+			if math.Float64bits(before[i]) != math.Float64bits(after[i]) {
+				sum.viol("StdNormal-variable", c, "value %d of the evaluation list changed from %.17g to %.17g when the exported variable StdNormal was assigned another distribution", i, before[i], after[i])
+				break
+			}
+		}
+	}()
+	for _, d := range dists[1:] {
+		var runs [2][]float64
+		for k := range runs {
+			rand.Seed(20260927) //nolint:staticcheck // the documented default global source, made repeatable
+			gen := stats.Rand(d)
+			for j := 0; j < 4; j++ {
+				runs[k] = append(runs[k], d.Rand(nil), gen(nil))
+			}
+		}
+		sum.Checks++
+		if !bitsEqual(runs[0], runs[1]) {
+			sum.viol("Rand-nil-source", c, "%+v: Rand(nil) after re-seeding the global source gives %v the first time and %v the second: it does not draw from the default global source", d, runs[0], runs[1])
+		}
+	}
 }
